@@ -406,7 +406,8 @@ QHT_RULES = [
 
 
 def heap_lifts(src, extra):
-    rules = extra + TQ_RULES
+    rules = extra + [Sub(r"(?:pika::)?execution::thread_stacksize::(\w+)", r"thread_stacksize_\1", None),
+                     Sub(r"(?:threads::detail::)?get_self_stacksize_enum\(\)", "get_self_stacksize_enum()", None)] + TQ_RULES
     return {"recycle_thread": Lift(src, r"void recycle_thread\(threads::detail::thread_id_type (?:thrd|tid)\)", rules=rules + [
                 Members(TQ_MEMBERS, optional=TQ_MEMBERS)]),
             "create_thread_object": Lift(src, r"void create_thread_object\(\s*threads::detail::thread_id_ref_type& (?:thrd|tid),", rules=rules + [
@@ -568,3 +569,16 @@ UNITS.append(Unit("ctx.yield_identity", "identity.c", defines=["RSOE_MEMBERS=" +
                   funcs=[CSTACKFUL + ": coroutine_stackful_self::yield_impl", CSELF_HPP + ": coroutine_self::reset_self_on_exit (ctor, dtor), set_self, get_self",
                          CSELF_CPP + ": coroutine_self::local_self"], min_obligations=10,
                   doc="identity (worker-local current-task pointer) is restored on the worker the task resumes on, also after migration"))
+
+
+# ---- C01 unit reused (added after seeded change C12-4 was missed): "each task runs on a stack of the size configured for its
+# ---- stack-size class" needs `thread_stacksize::current` (= the spawner's class) to be resolved in the spawning task's context,
+# ---- i.e. by thread_queue::create_thread before the description is staged; that is a postcondition of the C01 unit
+_c01 = {"__name__": "c01_reuse"}
+exec(compile(open("/verif/specs/C01/spec.py").read(), "/verif/specs/C01/spec.py", "exec"), _c01)
+for _u in _c01["UNITS"]:
+    if _u.name in ("hops.tq.create_thread", "hops.heap.create_thread_object"):
+        _u.name = "c01." + _u.name
+        _u.template = "../C01/" + _u.template
+        UNITS.append(_u)
+META["trusted_base"] = list(META.get("trusted_base", [])) + ["units c01.* are the C01 units of the same name (specs/C01/hops_create.c, hops_heap_create.c) with their trusted base"]
